@@ -71,6 +71,34 @@ def natlist(xs):
 TRANSLATORS = [("tr_limiters.py", "Gen/Limiters.v"), ("tr_labels.py", "Gen/Labels.v"),
                ("tr_dispatch.py", "Gen/Dispatch.v"), ("tr_effects.py", "Gen/Effects.v")]
 
+GEN_MODULE = {"tr_limiters.py": "Limiters", "tr_labels.py": "Labels", "tr_dispatch.py": "Dispatch", "tr_effects.py": "Effects"}
+# correspondence suites whose case files use definitions of a generated module (the other suites only need it to exist)
+SUITE_GEN = {"limiters": ["Limiters"]}   # the TVD theorems are generic in the limiter: the tvd suite only needs SOME limiter model to evaluate
+
+
+def coq_import_closure(rel_v):
+    """module names (flat PFV namespace) transitively imported by coq/<rel_v>, from the Require lines of the sources"""
+    files = {}
+    for d, _, fs in os.walk(COQ):
+        for f in fs:
+            if f.endswith(".v"):
+                files[f[:-2]] = os.path.join(d, f)
+    seen, todo = set(), [os.path.join(COQ, rel_v)]
+    while todo:
+        path = todo.pop()
+        try:
+            txt = open(path).read()
+        except OSError:
+            continue
+        for m in re.finditer(r"From\s+PFV\s+Require\s+(?:Import|Export)\s+([^.]*)\.", txt):
+            for name in m.group(1).split():
+                if name not in seen:
+                    seen.add(name)
+                    if name in files:
+                        todo.append(files[name])
+    return seen
+
+
 def regenerate():
     """Run every translator against the current /repo tree. Returns list of (translator, message) failures."""
     fails = []
@@ -82,6 +110,11 @@ def regenerate():
         rc, out, _ = sh([PY, sp, REPO, os.path.join(COQ, dst)], timeout=60)
         if rc != 0:
             fails.append((script, out.strip()[-600:]))
+            # keep the rest of the development buildable: the last committed good output stands in for the module, and every
+            # property ABOUT the module is reported broken (Ctx.prove / common.run_suites)
+            lg = os.path.join(COQ, "GenLastGood", os.path.basename(dst))
+            if not os.path.exists(os.path.join(COQ, dst)) and os.path.exists(lg):
+                shutil.copy(lg, os.path.join(COQ, dst))
     return fails
 
 
@@ -267,7 +300,13 @@ class Ctx:
     # --- build + obligations
     def prove(self, prop_file, extra_targets=()):
         """regenerate, build Props/<prop_file>.vo; records obligations. Returns True iff all discharged."""
-        fails = regenerate()
+        allfails = regenerate()
+        # a translator that no longer understands its source file breaks the properties whose theorems (or correspondence
+        # suites, see common.run_suites) are ABOUT the generated module -- not the others
+        closure = coq_import_closure(f"Props/{prop_file}.v")
+        self.translator_fails = {GEN_MODULE.get(script, script): (script, msg) for script, msg in allfails}
+        fails = [(script, msg) for script, msg in allfails
+                 if GEN_MODULE.get(script, script) in closure or not os.path.exists(os.path.join(COQ, "Gen", GEN_MODULE.get(script, "?") + ".v"))]
         for script, msg in fails:
             self.broke("translator", script, msg)
         target = f"Props/{prop_file}.vo"
